@@ -315,6 +315,14 @@ def step1 (fo : FloatOps) (fuel : Nat) (s : St) (op : Json) : E (St × Json) := 
     let h ← s.get r
     let d ← getDType (← field op "dtype")
     refusable do pure (s.set r (← h.setDType d), Json.str "ok")
+  | "set_freq" | "set_err2" =>
+    let r ← reg "h"
+    let h ← s.get r
+    let vals ← getList getRat (← field op "vals")
+    let k ← getDType (← field op "k")
+    refusable do
+      let h' ← if name == "set_freq" then h.setFreq vals k else h.setErr2 vals k
+      pure (s.set r h', Json.str "ok")
   | "copy" =>
     let h ← s.get (← reg "h")
     pure (s.set (← reg "out") (h.copy (getBoolD op "with_freq" true)), Json.str "ok")
